@@ -394,7 +394,7 @@ def _main(tier, seed, scratch, t0):
     for run in (10 ** 6, 10 ** 6 + 1, 10 ** 6 + 2):
         if _stable(one_item(ctx, run)) != _stable(one_item(ctx, run)):
             common.harness_exit(f'nondeterminism: item {run} of seed {seed} evaluated twice gave different records')
-    n_items = int(os.environ.get('VERIF_RUNS', '6000' if quick else '2000000'))
+    n_items = int(os.environ.get('VERIF_RUNS', '4000' if quick else '2000000'))
     deadline = time.time() + common.budget_s(120 if quick else 1200)
     mark_dir = os.path.join(scratch, 'marks')
     os.makedirs(mark_dir)
@@ -438,7 +438,7 @@ def _main(tier, seed, scratch, t0):
             except Exception as ex:
                 doc['minimised'] = False
                 doc['minimise_error'] = repr(ex)
-        path = common.write_replay(PID, seed, f"{run}-{abs(hash(sig)) % 10 ** 6}", doc)
+        path = common.write_replay(PID, seed, f"{run}-{common.sha(sig.encode())[:8]}", doc)
         reported.append({'signature': sig, 'replay': path, 'what': doc.get('what', '')})
     expected = ['fault_on_pool_worker', 'fault_on_calling_thread', 'fault_in_data', 'fault_in_footer', 'fault_in_header',
                 'two_or_more_requests_in_flight', 'ten_or_more_requests_in_flight',
@@ -478,3 +478,10 @@ def _main(tier, seed, scratch, t0):
     print(f'{PID} {tier}: {len(results)} targets, {faulted} faulted executions ({raised} raised, {returned_true} returned '
           f'the true result), {len(keys)} distinct fault sites, unreached: {coverage["unreached"]}, {wall:.0f}s, exit {code}')
     return code
+
+
+def selftest_digests(seed, n, scratch):
+    lib = filelib.build(seed, scratch, n_random=4)
+    ctx = {'seed': seed, 'lib': lib}
+    results, _, _ = common.run_parallel(lambda c, run: common.sha(_stable(one_item(c, run)).encode()), ctx, range(n), chunk=5)
+    return [d for _, d in sorted(results)]
